@@ -200,8 +200,10 @@ def run_case(col, r, idx):
         root = f_off if idx % 2 else P.parse(text, models.File, auto_claim_comments=False)
         mg = ops.MiscGenerator(r)
         log = []
-        for s in range(r.randint(5, 15)):
-            op = mg.claim_op(root)
+        pp = ops.pingpong_ops(root, r, r.randint(6, 14)) if idx % 3 == 2 else []
+        pp.reverse()
+        for s in range(max(r.randint(5, 15), len(pp))):
+            op = pp.pop() if pp else mg.claim_op(root)
             if op is None:
                 continue
             try:
